@@ -239,6 +239,8 @@ class ResInterp(FlowInterp):
                         hs = self._handles_of(v, st, env)
                         st = sput(st, "null", tn, "notnone")
                         src = self.tr(dotted(v), env) if dotted(v) else unparse(v)[:40]
+                        if isinstance(v, ast.Name) and sget(st, "wrap", self.tr(v.id, env)):
+                            src = sget(st, "wrap", self.tr(v.id, env))          # the local was rebound to a new object built around it
                         st = sput(st, "origin", tn, "caller:%s" % src if not hs else "handle")
                     elif tn in self.owner_fields:
                         st = sput(st, "null", tn, "notnone")
@@ -264,6 +266,10 @@ class ResInterp(FlowInterp):
                         st = sput(st, "alias", tn, frozenset(hs))
                     if self._opens(v, env):
                         st = sput(st, "origin", tn, "open")
+                    elif isinstance(v, ast.Call) and any(isinstance(a, ast.Name) and a.id == t.id for a in v.args):
+                        st = sput(st, "wrap", tn, unparse(v)[:60])              # x = Wrapper(x)
+                    elif sget(st, "wrap", tn):
+                        st = frozenset(x for x in st if not (x[0] == "wrap" and x[1] == tn))
                     if isinstance(v, ast.Constant) and isinstance(v.value, bool):
                         st = sput(st, "bool", tn, v.value)
                     elif isinstance(v, (ast.Compare, ast.BoolOp, ast.UnaryOp)):
